@@ -49,6 +49,7 @@ class Out:
         self.edits: List[str] = []
         self.dropped: List[str] = []
         self.uncontracted: List[str] = []
+        self.imported: List[str] = []
         self._cur_fn: Optional[str] = None
 
     # -- low level ------------------------------------------------------------------------------
@@ -219,11 +220,14 @@ def splice_fn(out: Out, it: Item, file: str, fid: str, *, ret: str = 'res',
               inherits: List[str] = (),
               opaque: List[dict] = (),
               foreach: List[dict] = (),
-              sink: str = 'writer'):
+              sink: str = 'writer',
+              imported: Optional[str] = None):
     """emit fn item `it` with contract clauses spliced between its signature and its body.
     Executable tokens of the body are emitted unchanged and in order."""
     toks = it.toks
     loops = loops or {}
+    if imported and it.open is not None:
+        loops, inserts, opaque, foreach = {}, (), (), ()
     arrow, r0, stop, close, w = _find_ret(it)
     end = it.open if it.open is not None else it.last
     rec = FnRecord(fid, file, it.path(), it.line_span,
@@ -240,6 +244,19 @@ def splice_fn(out: Out, it: Item, file: str, fid: str, *, ret: str = 'res',
     out._cur_fn = fid
     hf = it.head_first
     start_line_out = None
+    if imported and it.open is not None:
+        # the body is NOT re-verified in this file: its contract is proved by unit `imported` and used here
+        # as a callee contract (modular verification).  Emitted as external_body, flagged trusted.
+        out.spec('    #[verifier::external_body]')
+        out.chunks[-1].trusted = True
+        out.imported.append(f'{fid}: contract imported from unit {imported} (body verified there, not here)')
+        probe = False
+        record = False
+        if fid in out.fns:
+            del out.fns[fid]
+        rec.probe = False
+        # ghost splices belong to the proof of the body, which is not done here
+        loops, inserts, opaque, foreach = {}, (), (), ()
     # ---- signature
     if arrow is not None:
         sig_a = _slice(it, hf, r0)
